@@ -173,17 +173,35 @@ package keeper
 // state_transition.go
 // ---------------------------------------------------------------------------------------------
 
-// Trusted here, decided elsewhere: construction of the StateDB (x/evm/vm, C03) and of the EVM object (NewEVM, C01/C17).
+// NewEVM (C17, exposure half; helper "cpc2"): the EVM object every execution path uses (deliver, check, simulate, eth_call,
+// tracing all come here). VERIFIED body. The custom precompiles wired into the returned EVM are EXACTLY the registry records
+// of the cpc module store seen through ctx (record i = the i-th entry under the prefix [2], prelude/48_cpc2_iterator.spec),
+// each under the address stored in its record — for EVERY msg, tracer, cfg and stateDB: no clause below mentions them.
+// The first two ensures are the summary other proofs (C05, C13, ...) rely on; they are now proved from the body.
+// Clauses are stated for a registry whose records carry 20-byte addresses (SetCustomPrecompiledContractMeta stores no other:
+// C17.valid_records_only).
 //@ func (k *Keeper) NewEVM(ctx sdk.Context, msg core.Message, cfg *evmvm.EVMConfig, tracer corevm.EVMLogger, stateDB corevm.StateDB) *corevm.EVM
-//@   assumed
+//@   requires k != nil && cfg != nil && k.cpcKeeper.storeKey != nil && k.cpcKeeper.cdc != nil
 //@   modifies nothing
 //@   ensures result != nil && fresh(result) && result.StateDB == stateDB && result.Context.BlockNumber != nil && bigval[result.Context.BlockNumber] == ctx.BlockHeight()
 //@   ensures result.Context.BaseFee == cfg.BaseFee && (result.Config.Debug ==> result.Config.Tracer != nil) && result.ChainConfig() == cfg.ChainConfig
-//@   panics never
+//@   ensures[C17.exposed_every_registered] (forall w int :: (0 <= w && w < kvSeqLen(kvHas[kvId(layer(ctx), payload(k.cpcKeeper.storeKey))], b1(2))) ==> blen(pbMetaAddr(kvVal[kvId(layer(ctx), payload(k.cpcKeeper.storeKey))][kvSeqKey(kvHas[kvId(layer(ctx), payload(k.cpcKeeper.storeKey))], b1(2), w)])) == 20) ==> (forall i int :: (0 <= i && i < kvSeqLen(kvHas[kvId(layer(ctx), payload(k.cpcKeeper.storeKey))], b1(2))) ==> (bytesAddr(pbMetaAddr(kvVal[kvId(layer(ctx), payload(k.cpcKeeper.storeKey))][kvSeqKey(kvHas[kvId(layer(ctx), payload(k.cpcKeeper.storeKey))], b1(2), i)])) in result.customPrecompiledContracts))
+//@   ensures[C17.exposed_only_registered] (forall w int :: (0 <= w && w < kvSeqLen(kvHas[kvId(layer(ctx), payload(k.cpcKeeper.storeKey))], b1(2))) ==> blen(pbMetaAddr(kvVal[kvId(layer(ctx), payload(k.cpcKeeper.storeKey))][kvSeqKey(kvHas[kvId(layer(ctx), payload(k.cpcKeeper.storeKey))], b1(2), w)])) == 20) ==> (forall a common.Address :: (a in result.customPrecompiledContracts) ==> (exists i int :: 0 <= i && i < kvSeqLen(kvHas[kvId(layer(ctx), payload(k.cpcKeeper.storeKey))], b1(2)) && bytesAddr(pbMetaAddr(kvVal[kvId(layer(ctx), payload(k.cpcKeeper.storeKey))][kvSeqKey(kvHas[kvId(layer(ctx), payload(k.cpcKeeper.storeKey))], b1(2), i)])) == a))
+//@   panics any
+//@ loop 1
+//@   fresh_writes
+//@   invariant -1 <= rangeindex && rangeindex < kvSeqLen(kvHas[kvId(layer(ctx), payload(k.cpcKeeper.storeKey))], b1(2)) && len(contracts) == rangeindex + 1 && (cap(contracts) == 0 || fresh(base(contracts)))
+//@   invariant forall j int :: (0 <= j && j <= rangeindex) ==> (typeof(contracts[j]) == type(*corevm.CustomPrecompiledContract) && unbox(contracts[j], type(*corevm.CustomPrecompiledContract)) != nil && !unbox(contracts[j], type(*corevm.CustomPrecompiledContract)).disabled)
+//@   invariant (forall w int :: (0 <= w && w < kvSeqLen(kvHas[kvId(layer(ctx), payload(k.cpcKeeper.storeKey))], b1(2))) ==> blen(pbMetaAddr(kvVal[kvId(layer(ctx), payload(k.cpcKeeper.storeKey))][kvSeqKey(kvHas[kvId(layer(ctx), payload(k.cpcKeeper.storeKey))], b1(2), w)])) == 20) ==> (forall j int :: (0 <= j && j <= rangeindex) ==> unbox(contracts[j], type(*corevm.CustomPrecompiledContract)).address == bytesAddr(pbMetaAddr(kvVal[kvId(layer(ctx), payload(k.cpcKeeper.storeKey))][kvSeqKey(kvHas[kvId(layer(ctx), payload(k.cpcKeeper.storeKey))], b1(2), j)])))
+//@ loop 2
+//@   fresh_writes
+//@   invariant -1 <= rangeindex && len(methods) == rangeindex + 1 && (cap(methods) == 0 || fresh(base(methods)))
 
 // ApplyMessageWithConfig: gas accounting of one executed message (C05) and the receipt it stores (C13).
 //@ func (k *Keeper) ApplyMessageWithConfig(ctx sdk.Context, msg core.Message, tracer corevm.EVMLogger, commit bool, cfg *evmvm.EVMConfig, txConfig evmvm.TxConfig) (res *evmtypes.MsgEthereumTxResponse, err error)
 //@   deterministic[C01.no_node_local_source]
+// (helper cpc2, C17) the cpc keeper is wired: NewEVM reads the precompile registry through it
+//@   requires k.cpcKeeper.storeKey != nil && k.cpcKeeper.cdc != nil
 //@   requires k != nil && cfg != nil && msg != nil && cfg.ChainConfig != nil
 //@   requires msg.GasPrice() != nil && msg.GasFeeCap() != nil && msg.GasTipCap() != nil && msg.Value() != nil
 //@   requires bigval[msg.Value()] >= 0
@@ -234,6 +252,8 @@ package keeper
 // the whole gas limit (the two earlier error returns need an unknown block proposer / an invalid signature).
 //@ func (k *Keeper) ApplyTransaction(ctx sdk.Context, tx *ethtypes.Transaction) (res *evmtypes.MsgEthereumTxResponse, err error)
 //@   deterministic[C01.no_node_local_source]
+// (helper cpc2, C17) the cpc keeper is wired: NewEVM reads the precompile registry through it
+//@   requires k.cpcKeeper.storeKey != nil && k.cpcKeeper.cdc != nil
 //@   requires k != nil && tx != nil && ctx.GasMeter() != nil
 //@   requires txValue(tx) >= 0
 //@   requires txType(tx) <= 2 && gmLimit(payload(ctx.GasMeter())) == txGas(tx) && gmConsumed[payload(ctx.GasMeter())] <= gmLimit(payload(ctx.GasMeter()))
@@ -304,6 +324,8 @@ package keeper
 // (decodable payload, valid bech32 sender that equals the recovered signer, gas meter limited to the tx gas).
 //@ func (k *Keeper) EthereumTx(goCtx context.Context, msg *evmtypes.MsgEthereumTx) (res *evmtypes.MsgEthereumTxResponse, err error)
 //@   deterministic[C01.no_node_local_source]
+// (helper cpc2, C17) the cpc keeper is wired: NewEVM reads the precompile registry through it
+//@   requires k.cpcKeeper.storeKey != nil && k.cpcKeeper.cdc != nil
 //@   requires k != nil && msg != nil && typeof(goCtx) == type(sdk.Context) && k.feeMarketKeeper != nil && k.bankKeeper != nil
 //@   requires bech32Valid(msg.From) && txDecodable(bytes(msg.MarshalledTx)) && decType(bytes(msg.MarshalledTx)) <= 2
 //@   requires bech32Bytes(msg.From) == addrBytes(decSender(bytes(msg.MarshalledTx)))
@@ -355,6 +377,8 @@ package keeper
 // bookkeeping of that context is written), for every request.
 //@ func (k Keeper) EthCall(c context.Context, req *evmtypes.EthCallRequest) (res *evmtypes.MsgEthereumTxResponse, err error)
 //@   deterministic[C01.no_node_local_source]
+// (helper cpc2, C17) the cpc keeper is wired: NewEVM reads the precompile registry through it
+//@   requires k.cpcKeeper.storeKey != nil && k.cpcKeeper.cdc != nil
 //@   requires typeof(c) == type(sdk.Context)
 //@   modifies trGas[layer(sdk.UnwrapSDKContext(c))], trLogs[layer(sdk.UnwrapSDKContext(c))], trReceipt[layer(sdk.UnwrapSDKContext(c))], trHasReceipt[layer(sdk.UnwrapSDKContext(c))], elems(type(common.Address))
 //@   ensures[C08.eth_call_no_persistent_change] wVersion[layer(sdk.UnwrapSDKContext(c))] == old(wVersion[layer(sdk.UnwrapSDKContext(c))]) && bankBal[layer(sdk.UnwrapSDKContext(c))] == old(bankBal[layer(sdk.UnwrapSDKContext(c))]) && bankSupply[layer(sdk.UnwrapSDKContext(c))] == old(bankSupply[layer(sdk.UnwrapSDKContext(c))]) && acctSeq[layer(sdk.UnwrapSDKContext(c))] == old(acctSeq[layer(sdk.UnwrapSDKContext(c))]) && acctExists[layer(sdk.UnwrapSDKContext(c))] == old(acctExists[layer(sdk.UnwrapSDKContext(c))])
@@ -364,6 +388,8 @@ package keeper
 // EstimateGas: same frame; and a successful estimate lies within (TxGas-1, cap].
 //@ func (k Keeper) EstimateGas(c context.Context, req *evmtypes.EthCallRequest) (res *evmtypes.EstimateGasResponse, err error)
 //@   deterministic[C01.no_node_local_source]
+// (helper cpc2, C17) the cpc keeper is wired: NewEVM reads the precompile registry through it
+//@   requires k.cpcKeeper.storeKey != nil && k.cpcKeeper.cdc != nil
 //@   requires typeof(c) == type(sdk.Context)
 //@   requires req != nil ==> req.GasCap < pow2(63)
 //@   modifies trGas, trLogs, trReceipt, trHasReceipt, elems(type(common.Address))
